@@ -1,0 +1,17 @@
+//go:build verif
+
+package dcache
+
+import "sort"
+
+// VerifEach calls f for every cached name in ascending order.
+func (dc *Dcache) VerifEach(f func(name string, d Dentry)) {
+	names := make([]string, 0, len(dc.cache))
+	for n := range dc.cache {
+		names = append(names, n)
+	}
+	sort.Strings(names)
+	for _, n := range names {
+		f(n, dc.cache[n])
+	}
+}
